@@ -238,6 +238,33 @@ def c19_runners():
         return f, call
     runners["state_gradient"] = (["compute_gradient_and_dynamics", "_chain_rule"], grad_build)
 
+    def grad_many_build():
+        """eight control parameters per half step (work per step that a library might parallelise)"""
+        from oqupy.gradient import state_gradient
+        f = {"hamiltonian": Fault(), "target": Fault()}
+        mats = [sx, sz, op.sigma("y"), sx + sz, sx - sz, op.sigma("y") + sz, op.sigma("y") - sx,
+                0.5 * sx + 0.25 * sz]
+
+        def ham(x0, x1, x2, x3, x4, x5, x6, x7):       # explicit arity: the library counts parameters
+            f["hamiltonian"].tick()
+            xs = (x0, x1, x2, x3, x4, x5, x6, x7)
+            return sum(x * m for x, m in zip(xs, mats)) + 0.3 * sz
+
+        def target(rho):
+            f["target"].tick()
+            return op.spin_dm("x+").T
+        psys = oqupy.ParameterizedSystem(ham)
+        pt = identity_pt(2, dt=0.1)
+        params = np.array([[0.1 + 0.01 * i + 0.02 * j for j in range(8)] for i in range(4)])
+
+        def call(progress_type):
+            return state_gradient(system=psys, initial_state=up, target_derivative=target,
+                                  process_tensors=[pt], parameters=params,
+                                  progress_type=progress_type)
+        return f, call
+    runners["state_gradient_8_parameters"] = (["compute_gradient_and_dynamics", "_chain_rule"],
+                                              grad_many_build)
+
     def tempo_build():
         f = {"hamiltonian": Fault()}
 
